@@ -257,6 +257,11 @@ func enabledOps(s *pbref.Schema, root *pbref.Val) []pbref.Op {
 					{Step: pbref.Step{K: pbref.SIndex, I: len(v.L) - 1}, Val: newElem(f, 3)},
 					{Step: pbref.Step{K: pbref.SIndex, I: 1024}, Val: newElem(f, 1)}}})
 			}
+			if len(v.L) >= 2 {
+				// SetMany replacing two present elements, requested in ascending and in descending index order
+				a, b := pbref.ManyItem{Step: pbref.Step{K: pbref.SIndex, I: 0}, Val: newElem(f, 3)}, pbref.ManyItem{Step: pbref.Step{K: pbref.SIndex, I: len(v.L) - 1}, Val: newElem(f, 0)}
+				ops = append(ops, pbref.Op{Kind: pbref.OpSetMany, Path: p, Many: []pbref.ManyItem{a, b}}, pbref.Op{Kind: pbref.OpSetMany, Path: p, Many: []pbref.ManyItem{b, a}})
+			}
 		case v.Card == pbref.Map:
 			k := pbref.AbsentKey(v)
 			if k != nil {
